@@ -103,6 +103,14 @@ func Size(m Message, v Version) int64 {
 	}
 }
 
+// CheckSize reports whether the message fits the format
+func CheckSize(m Message) error {
+	if len(m.Key)+len(m.Value) > maxMessageBodySize {
+		return fmt.Errorf("message too big")
+	}
+	return nil
+}
+
 type Writer struct {
 	Path    string
 	f       *os.File
